@@ -59,12 +59,6 @@ Theorem C05_parser_reads_minimal_text : forall (dot : bool) (r : re), no_empty r
 Proof. exact parse_print. Qed.
 Print Assumptions C05_parser_reads_minimal_text.
 
-(* tie to the source: the model of Regex.to_cfg is assembled from the rule templates of the get_cfg_rules methods as the source
-   defines them today (regular_expression/regex_objects.py, regenerated on every build) *)
-From PFL Require Import Proofs.GenTieC05b.
-Theorem C05_to_cfg_rules_from_source : forall (r : re) (cur : rvar) (c : nat), re_prods r cur c = re_prods_src r cur c.
-Proof. exact re_prods_from_source. Qed.
-Print Assumptions C05_to_cfg_rules_from_source.
 
 (* Regex.accepts as pyformlang computes it: compile with to_epsilon_nfa (the counter-based construction), then run the
    epsilon-NFA acceptance loop — composition of the two proved models *)
